@@ -1639,7 +1639,10 @@ theorem build_fd (cfg : Cfg) (st0 : St) (mods : List ModSpec) (ios : List TaskIO
     (runBuild cfg mods ios st0).w.py.collected = [] ∧
     (runBuild cfg mods ios st0).w.py.dbFd = none ∧
     (runBuild cfg mods ios st0).w.py.garbage =
-      st0.w.py.garbage ++ st0.w.py.dbFd.toList ++ (st0.cm.map CM.owned).getD [] := by
+      st0.w.py.garbage ++ st0.w.py.dbFd.toList ++ (st0.cm.map CM.owned).getD []
+    ∧ (∃ P : Py, P.collected = st0.w.py.collected ∧ P.modules = st0.w.py.modules ∧
+        (runBuild cfg mods ios st0).tasks = (collectAll P mods).2.1 ∧
+        (runBuild cfg mods ios st0).collectFailed = (collectAll P mods).2.2) := by
   obtain ⟨⟨t0, e0⟩, ⟨t1, e1⟩, ⟨t2, e2⟩⟩ := hw.os
   have hb := beforeCapture_std cfg st0 hw
   have hd3 := st0.w.os.free_ge3 hw.os
@@ -1709,7 +1712,7 @@ theorem build_fd (cfg : Cfg) (st0 : St) (mods : List ModSpec) (ios : List TaskIO
   rw [step_unconfigure_build]
   have hdopen : sh.w.os.fd st0.w.os.free = some st0.w.os.files.length := by
     rw [u1.os, hframe _ hd3 hdn, hbfd, if_pos rfl]
-  refine ⟨k1, ?_, ?_, ?_, ?_, k6, ?_, ?_, ?_, ?_, ?_, ?_, ?_, ?_, ?_, ?_, ?_⟩
+  refine ⟨k1, ?_, ?_, ?_, ?_, k6, ?_, ?_, ?_, ?_, ?_, ?_, ?_, ?_, ?_, ?_, ?_, ?_⟩
   · rw [k7]; show sh.secs = _
     rw [u1.secs, wsecs, lsecs, ← hse, ← hsd]; show sc.secs ++ _ = _; rw [csecs]; rfl
   · intro f hf
@@ -1757,6 +1760,11 @@ theorem build_fd (cfg : Cfg) (st0 : St) (mods : List ModSpec) (ios : List TaskIO
   · rw [k5]; show sh.w.py.garbage = _
     rw [u4]; simp only []; rw [wmisc.2.2.2.2.2.2.2.2.1, lmisc.2.2.2.2.2.2.2.2.1, hse_py, hsd_py]; simp only []
     rw [cmisc.2.2.2.2.2.2.2.2.1, hbc]; rfl
+  · refine ⟨sd.w.py, ?_, ?_, ?_, ?_⟩
+    · rw [hsd_py]; simp only []; rw [cmisc.2.2.2.2.2.1, hbc]; rfl
+    · rw [hsd_py]; simp only []; rw [cmisc.2.2.2.2.2.2.1, hbc]; rfl
+    · rw [k8]; show sh.tasks = _; rw [u2, wtasks, ltasks, ← hse]; rfl
+    · rw [k9]; show sh.collectFailed = _; rw [u3, wcf, lcf, ← hse]; rfl
 
 theorem phases_sys_extra (cfg : Cfg) (p : SysP) (phs : List Phase) (st : St) (h : ∃ ins, SysReady st p ins) :
     (runOps cfg st (phs.map Phase.op)).w.os.fdt = st.w.os.fdt ∧
@@ -1792,7 +1800,10 @@ theorem build_sys (cfg : Cfg) (st0 : St) (mods : List ModSpec) (ios : List TaskI
     (runBuild cfg mods ios st0).w.py.reportVars = 0 ∧
     (runBuild cfg mods ios st0).w.py.provisional = [] ∧
     (runBuild cfg mods ios st0).w.py.collected = [] ∧
-    (runBuild cfg mods ios st0).w.py.dbFd = none := by
+    (runBuild cfg mods ios st0).w.py.dbFd = none
+    ∧ (∃ P : Py, P.collected = st0.w.py.collected ∧ P.modules = st0.w.py.modules ∧
+        (runBuild cfg mods ios st0).tasks = (collectAll P mods).2.1 ∧
+        (runBuild cfg mods ios st0).collectFailed = (collectAll P mods).2.2) := by
   obtain ⟨⟨t0, e0⟩, ⟨t1, e1⟩, ⟨t2, e2⟩⟩ := hw.os
   have hb := beforeCapture_std cfg st0 hw
   have hd3 := st0.w.os.free_ge3 hw.os
@@ -1845,7 +1856,7 @@ theorem build_sys (cfg : Cfg) (st0 : St) (mods : List ModSpec) (ios : List TaskI
   rw [step_unconfigure_build]
   have hdopen : sh.w.os.fd st0.w.os.free = some st0.w.os.files.length := by
     rw [u1.os, hsgfd, hbfd, if_pos rfl]
-  refine ⟨t1, t2, e1, e2, by rw [k1, pmeth], ?_, ?_, ?_, ?_, k4, ?_, ?_, ?_, ?_, ?_, ?_, ?_, ?_, ?_, ?_⟩
+  refine ⟨t1, t2, e1, e2, by rw [k1, pmeth], ?_, ?_, ?_, ?_, k4, ?_, ?_, ?_, ?_, ?_, ?_, ?_, ?_, ?_, ?_, ?_⟩
   · rw [k5]; show sh.secs = _
     rw [u1.secs, wsecs, lsecs, ← hse, ← hsd]; show sc.secs ++ _ = _; rw [csecs]; rfl
   · intro f
@@ -1883,6 +1894,11 @@ theorem build_sys (cfg : Cfg) (st0 : St) (mods : List ModSpec) (ios : List TaskI
   · rw [k3]; show sh.w.py.provisional = _; rw [u4]
   · rw [k3]; show sh.w.py.collected = _; rw [u4]
   · rw [k3]; rfl
+  · refine ⟨sd.w.py, ?_, ?_, ?_, ?_⟩
+    · rw [hsd_py]; simp only []; rw [cmisc.2.2.2.2.2.1]; rfl
+    · rw [hsd_py]; simp only []; rw [cmisc.2.2.2.2.2.2.1]; rfl
+    · rw [k6]; show sh.tasks = _; rw [u2, wtasks, ltasks, ← hse]; rfl
+    · rw [k7]; show sh.collectFailed = _; rw [u3, wcf, lcf, ← hse]; rfl
 
 theorem phases_no_extra (cfg : Cfg) (t1 t2 : Nat) (phs : List Phase) (st : St) (h : NoReady st t1 t2) :
     (runOps cfg st (phs.map Phase.op)).w.os.fdt = st.w.os.fdt ∧
@@ -1914,7 +1930,10 @@ theorem build_no (cfg : Cfg) (st0 : St) (mods : List ModSpec) (ios : List TaskIO
     (runBuild cfg mods ios st0).w.py.reportVars = 0 ∧
     (runBuild cfg mods ios st0).w.py.provisional = [] ∧
     (runBuild cfg mods ios st0).w.py.collected = [] ∧
-    (runBuild cfg mods ios st0).w.py.dbFd = none := by
+    (runBuild cfg mods ios st0).w.py.dbFd = none
+    ∧ (∃ P : Py, P.collected = st0.w.py.collected ∧ P.modules = st0.w.py.modules ∧
+        (runBuild cfg mods ios st0).tasks = (collectAll P mods).2.1 ∧
+        (runBuild cfg mods ios st0).collectFailed = (collectAll P mods).2.2) := by
   obtain ⟨⟨t0, e0⟩, ⟨t1, e1⟩, ⟨t2, e2⟩⟩ := hw.os
   have hb := beforeCapture_std cfg st0 hw
   have hd3 := st0.w.os.free_ge3 hw.os
@@ -1963,7 +1982,7 @@ theorem build_no (cfg : Cfg) (st0 : St) (mods : List ModSpec) (ios : List TaskIO
   rw [stop_no cfg (dbClosed sh st0.w.os.free) t1 t2 r5, step_unconfigure_build]
   have hdopen : sh.w.os.fd st0.w.os.free = some st0.w.os.files.length := by
     rw [u1.os, hsgfd, hbfd, if_pos rfl]
-  refine ⟨t1, t2, e1, e2, rfl, ?_, ?_, ?_, ?_, r5.nofault, ?_, ?_, ?_, ?_, ?_, ?_, ?_, ?_, ?_, rfl⟩
+  refine ⟨t1, t2, e1, e2, rfl, ?_, ?_, ?_, ?_, r5.nofault, ?_, ?_, ?_, ?_, ?_, ?_, ?_, ?_, ?_, rfl, ?_⟩
   · have : (phaseList ios).flatMap (Phase.secs (fun _ => false)) = [] := by
       simp [Phase.secs, secsOf, outText]
     show sh.secs = _
@@ -1992,6 +2011,11 @@ theorem build_no (cfg : Cfg) (st0 : St) (mods : List ModSpec) (ios : List TaskIO
   · show sh.w.py.reportVars = _; rw [u4]
   · show sh.w.py.provisional = _; rw [u4]
   · show sh.w.py.collected = _; rw [u4]
+  · refine ⟨sd.w.py, ?_, ?_, ?_, ?_⟩
+    · rw [hsd_py]; simp only []; rw [cpy]; rfl
+    · rw [hsd_py]; simp only []; rw [cpy]; rfl
+    · show sh.tasks = _; rw [u2, wtasks, ltasks, ← hse]; rfl
+    · show sh.collectFailed = _; rw [u3, wcf, lcf, ← hse]; rfl
 
 /-! ## Layer 5 — vocabulary of the property statements -/
 
@@ -2050,18 +2074,21 @@ theorem build_restores (cfg : Cfg) (st0 : St) (mods : List ModSpec) (ios : List 
     (runBuild cfg mods ios st0).w.py.reportVars = 0 ∧
     (runBuild cfg mods ios st0).w.py.provisional = [] ∧
     (runBuild cfg mods ios st0).w.py.collected = [] ∧
-    (runBuild cfg mods ios st0).w.py.dbFd = none := by
+    (runBuild cfg mods ios st0).w.py.dbFd = none ∧
+    (∃ P : Py, P.collected = st0.w.py.collected ∧ P.modules = st0.w.py.modules ∧
+        (runBuild cfg mods ios st0).tasks = (collectAll P mods).2.1 ∧
+        (runBuild cfg mods ios st0).collectFailed = (collectAll P mods).2.2) := by
   cases hm : cfg.method
-  · obtain ⟨a, _, _, b1, b2, b3, b4, b5, b6, b7, b8, b9, c1, c2, c3, c4, _⟩ := build_fd cfg st0 mods ios hm hcf hw
-    exact ⟨⟨b1, b2, b3, b4, by rw [b5, hw.sout], by rw [b6, hw.serr], b7, b8, b9⟩, a, c1, c2, c3, c4⟩
-  · obtain ⟨t1, t2, _, _, a, _, _, b1, b2, b3, b4, b5, b6, b7, b8, b9, c1, c2, c3, c4⟩ :=
+  · obtain ⟨a, _, _, b1, b2, b3, b4, b5, b6, b7, b8, b9, c1, c2, c3, c4, _, c5⟩ := build_fd cfg st0 mods ios hm hcf hw
+    exact ⟨⟨b1, b2, b3, b4, by rw [b5, hw.sout], by rw [b6, hw.serr], b7, b8, b9⟩, a, c1, c2, c3, c4, c5⟩
+  · obtain ⟨t1, t2, _, _, a, _, _, b1, b2, b3, b4, b5, b6, b7, b8, b9, c1, c2, c3, c4, c5⟩ :=
       build_sys cfg st0 mods ios false (by simp [hm]) hcf hw
-    exact ⟨⟨b1, b2, b3, b4, by rw [b5, hw.sout], by rw [b6, hw.serr], b7, b8, b9⟩, by rw [a, hm], c1, c2, c3, c4⟩
-  · obtain ⟨t1, t2, _, _, a, _, _, b1, b2, b3, b4, b5, b6, b7, b8, b9, c1, c2, c3, c4⟩ := build_no cfg st0 mods ios hm hcf hw
-    exact ⟨⟨b1, b2, b3, b4, by rw [b5, hw.sout], by rw [b6, hw.serr], b7, b8, b9⟩, a, c1, c2, c3, c4⟩
-  · obtain ⟨t1, t2, _, _, a, _, _, b1, b2, b3, b4, b5, b6, b7, b8, b9, c1, c2, c3, c4⟩ :=
+    exact ⟨⟨b1, b2, b3, b4, by rw [b5, hw.sout], by rw [b6, hw.serr], b7, b8, b9⟩, by rw [a, hm], c1, c2, c3, c4, c5⟩
+  · obtain ⟨t1, t2, _, _, a, _, _, b1, b2, b3, b4, b5, b6, b7, b8, b9, c1, c2, c3, c4, c5⟩ := build_no cfg st0 mods ios hm hcf hw
+    exact ⟨⟨b1, b2, b3, b4, by rw [b5, hw.sout], by rw [b6, hw.serr], b7, b8, b9⟩, a, c1, c2, c3, c4, c5⟩
+  · obtain ⟨t1, t2, _, _, a, _, _, b1, b2, b3, b4, b5, b6, b7, b8, b9, c1, c2, c3, c4, c5⟩ :=
       build_sys cfg st0 mods ios true (by simp [hm]) hcf hw
-    exact ⟨⟨b1, b2, b3, b4, by rw [b5, hw.sout], by rw [b6, hw.serr], b7, b8, b9⟩, by rw [a, hm], c1, c2, c3, c4⟩
+    exact ⟨⟨b1, b2, b3, b4, by rw [b5, hw.sout], by rw [b6, hw.serr], b7, b8, b9⟩, by rw [a, hm], c1, c2, c3, c4, c5⟩
 
 /-- arguments of one `pytask.build()` call -/
 structure BuildArgs where
